@@ -26,6 +26,7 @@ type schedStore struct {
 	// in which their calls continue is the order of the batch
 	held    []pendingProposal
 	heldRes []proposalResult
+	log     []dbsm.Entry // every entry handed to the state machine, in order
 }
 
 type pendingProposal struct {
@@ -69,6 +70,7 @@ func (s *schedStore) propose(u kv.Update) (dbsm.Result, error) {
 				es[i] = dbsm.Entry{Index: s.next, Cmd: q.cmd}
 				s.next++
 			}
+			s.log = append(s.log, es...)
 			res, err := s.fsm.Update(es)
 			s.heldRes = nil
 			for i := range s.queue {
@@ -86,6 +88,7 @@ func (s *schedStore) propose(u kv.Update) (dbsm.Result, error) {
 		return r.r, r.err
 	}
 	defer s.mu.Unlock()
+	s.log = append(s.log, dbsm.Entry{Index: s.next, Cmd: b})
 	res, err := s.fsm.Update([]dbsm.Entry{{Index: s.next, Cmd: b}})
 	s.next++
 	if err != nil {
